@@ -56,7 +56,7 @@ class Detection:
             if blk.idx not in self.cfg.live:
                 continue
             for i, st in enumerate(blk.stmts):
-                if st["k"] == "assign" and "agg" in st["rv"] and st["rv"].get("adt") == "WaitForGuard":
+                if st["k"] == "assign" and "agg" in st["rv"] and st["rv"].get("adt") == anchors.names(f).guard and anchors.names(f).guard:
                     self.wfg.append((blk.idx, i, st))
         self.region = set()
         self.release = set()
